@@ -58,12 +58,20 @@ OVERLAY = {
 # additional harness modules for a source file that already has one: kani file -> (source file, module name)
 EXTRA_OVERLAY = {
     "sim__mem__copy.rs": ("sim/mem.rs", "verif_kani_copy"),
+    "sim__device__poll.rs": ("sim/device.rs", "verif_kani_poll"),
+    "sim__device__h.rs": ("sim/device.rs", "verif_kani_h"),
+    "sim__frame__h.rs": ("sim/frame.rs", "verif_kani_h"),
+    "sim__mem__h.rs": ("sim/mem.rs", "verif_kani_h"),
 }
 # harness module -> other harness modules whose helpers it uses
 MODULE_NEEDS = {
     "sim.rs": ["sim__mem.rs", "sim__frame.rs", "sim__device.rs"],
     "sim__frame.rs": ["sim__mem.rs"],
     "sim__mem__copy.rs": ["sim__mem.rs"],
+    "sim__device__poll.rs": ["sim__device.rs"],
+    "sim__device__h.rs": ["sim__device.rs"],
+    "sim__frame__h.rs": ["sim__frame.rs", "sim__mem.rs"],
+    "sim__mem__h.rs": ["sim__mem.rs"],
     "sim__debug.rs": ["sim.rs", "sim__mem.rs", "sim__frame.rs", "sim__device.rs"],
     "asm.rs": [],
     "ast__asm.rs": ["asm.rs"],
